@@ -7,6 +7,8 @@ are redirected for the duration of a symbolic run.
 import builtins
 import sys
 
+# modules whose math.sqrt/modf calls are pure integer work (perfect-square tests): they keep the real math functions
+CONCRETE_MATH_MODULES = {"PyMatterSim.utils.wavevector"}
 _SAVED = {}     # (modname, attr) -> original or _MISSING
 _MISSING = object()
 BOUND = False
@@ -28,9 +30,10 @@ def bind_all():
             repl["pd"] = pdf.FACADE
         if "cmath" in g:
             repl["cmath"] = builtins_f.CMATH
-        if "sqrt" in g and getattr(g["sqrt"], "__module__", None) == "math" or g.get("sqrt") is builtins_f.sym_sqrt:
+        concrete_only = m.__name__ in CONCRETE_MATH_MODULES
+        if not concrete_only and ("sqrt" in g and getattr(g["sqrt"], "__module__", None) == "math" or g.get("sqrt") is builtins_f.sym_sqrt):
             repl["sqrt"] = builtins_f.sym_sqrt
-        if "modf" in g:
+        if not concrete_only and "modf" in g:
             repl["modf"] = builtins_f.sym_modf
         repl["float"] = builtins_f.sym_float
         repl["int"] = builtins_f.sym_int
